@@ -191,15 +191,25 @@ Section ZoneInst.
   Proof. intros Wf. rewrite <- nav_z_first_of. apply simz_eq. eapply sim_first_of; hyps. Qed.
   Theorem nglue_last_of_zone u x wd : wfz x -> nglue_last_of u (zobj x) wd = zres (z_last_of z u x wd).
   Proof. intros Wf. rewrite <- nav_z_last_of. apply simz_eq. eapply sim_last_of; hyps. Qed.
+  Lemma nfo_m g wd : nglue_first_of U_MONTH g wd = nglue_first_of_month g wd. Proof. reflexivity. Qed.
+  Lemma nfo_q g wd : nglue_first_of U_QUARTER g wd = nglue_first_of_quarter g wd. Proof. reflexivity. Qed.
+  Lemma nfo_y g wd : nglue_first_of U_YEAR g wd = nglue_first_of_year g wd. Proof. reflexivity. Qed.
+  Lemma nlo_m g wd : nglue_last_of U_MONTH g wd = nglue_last_of_month g wd. Proof. reflexivity. Qed.
+  Lemma nlo_q g wd : nglue_last_of U_QUARTER g wd = nglue_last_of_quarter g wd. Proof. reflexivity. Qed.
+  Lemma nlo_y g wd : nglue_last_of U_YEAR g wd = nglue_last_of_year g wd. Proof. reflexivity. Qed.
+  Lemma zfo_m x wd : z_first_of z U_MONTH x wd = z_first_of_month z x wd. Proof. reflexivity. Qed.
+  Lemma zfo_q x wd : z_first_of z U_QUARTER x wd = z_first_of_quarter z x wd. Proof. reflexivity. Qed.
+  Lemma zfo_y x wd : z_first_of z U_YEAR x wd = z_first_of_year z x wd. Proof. reflexivity. Qed.
+  Lemma zlo_m x wd : z_last_of z U_MONTH x wd = z_last_of_month z x wd. Proof. reflexivity. Qed.
+  Lemma zlo_q x wd : z_last_of z U_QUARTER x wd = z_last_of_quarter z x wd. Proof. reflexivity. Qed.
+  Lemma zlo_y x wd : z_last_of z U_YEAR x wd = z_last_of_year z x wd. Proof. reflexivity. Qed.
   Theorem nglue_first_of_units_zone x wd : wfz x ->
     nglue_first_of_month (zobj x) wd = zres (z_first_of_month z x wd) /\ nglue_last_of_month (zobj x) wd = zres (z_last_of_month z x wd) /\
     nglue_first_of_quarter (zobj x) wd = zres (z_first_of_quarter z x wd) /\ nglue_last_of_quarter (zobj x) wd = zres (z_last_of_quarter z x wd) /\
     nglue_first_of_year (zobj x) wd = zres (z_first_of_year z x wd) /\ nglue_last_of_year (zobj x) wd = zres (z_last_of_year z x wd).
   Proof.
-    intros Wf. repeat split.
-    - exact (nglue_first_of_zone U_MONTH x wd Wf). - exact (nglue_last_of_zone U_MONTH x wd Wf).
-    - exact (nglue_first_of_zone U_QUARTER x wd Wf). - exact (nglue_last_of_zone U_QUARTER x wd Wf).
-    - exact (nglue_first_of_zone U_YEAR x wd Wf). - exact (nglue_last_of_zone U_YEAR x wd Wf).
+    intros Wf. rewrite <- nfo_m, <- nfo_q, <- nfo_y, <- nlo_m, <- nlo_q, <- nlo_y, <- zfo_m, <- zfo_q, <- zfo_y, <- zlo_m, <- zlo_q, <- zlo_y.
+    repeat split; first [apply nglue_first_of_zone | apply nglue_last_of_zone]; exact Wf.
   Qed.
   Theorem nglue_nth_of_month_zone x nth w : wfz x -> nglue_nth_of_month (zobj x) nth w = zreso (z_nth_of_month z x nth w).
   Proof. intros Wf. rewrite <- nav_z_nth_of_month. apply simzo_eq. eapply sim_nth_of_month; hyps. Qed.
